@@ -38,8 +38,8 @@ def workloads(rng, tier):
     for a, b in (("uring=1", "-"), ("-", "uring=1"), ("uring=1", "uring=1"), ("uring=1,ms=0", "uring=1,ms=0")):
         out.append(["peerclose %s %s" % (a, b)])
     # the io_uring side closes while its peer is still sending: the receive buffers the kernel held come back (more rounds than buffers)
-    out.append(["!rchurn uring=1,ms=0 %d" % (20 if tier == "quick" else 80)])
-    out.append(["!rchurn uring=1 %d" % (12 if tier == "quick" else 80)])
+    out.append(["!rchurn uring=1,ms=0 %d" % (40 if tier == "quick" else 300)])
+    out.append(["!rchurn uring=1 %d" % (24 if tier == "quick" else 300)])
     out.append(["slowdrip type=PULL,hsivl=600,uring=1 300 hff00000000000000017f03"])   # known finding: no handshake deadline
     return out
 
